@@ -962,7 +962,44 @@ func c14WhenCap(u fw.Unit) fw.Result {
 			}
 		}
 	})
-	a.sample(map[string]any{"when_sql": sqlWhen, "cap_sql": sqlCap, "cap": 2})
+	// cap 2 with a WHEN gate: only partitions that ever passed the gate hold state; rows failing the gate - of any
+	// key - must neither allocate nor evict. Exact while at most two keys have passed.
+	sqlCapWhen := "SELECT k, acc_sum(v) OVER (PARTITION BY k WHEN g > 0) AS s FROM stream"
+	sequences(5, 6, func(ix []int) {
+		var rows []Row
+		passed := map[string]bool{}
+		for i, x := range ix {
+			k := []string{"a", "b", "c"}[x/2]
+			rows = append(rows, Row{"k": k, "g": x % 2, "v": 1.0, "id": i + 1})
+			if x%2 == 1 {
+				passed[k] = true
+			}
+		}
+		if len(passed) > 2 || len(passed) == 0 {
+			return
+		}
+		res, execErr, st, pv := syncEval(sqlCapWhen, rows, streamsql.WithAnalyticMaxPartitions(2))
+		a.r.Evaluations++
+		a.r.States++
+		a.r.Nontrivial++
+		if execErr != "" || st != sched.StatusOK {
+			a.fail("C14|cap|abort", execErr+" "+st.String()+" "+firstLine(pv), map[string]any{"sql": sqlCapWhen, "rows": rows}, nil, nil)
+			return
+		}
+		cnt := map[string]float64{}
+		for i, r := range rows {
+			if r["g"] != 1 {
+				continue
+			}
+			k := r["k"].(string)
+			cnt[k]++
+			if f, ok := num(res[i].Row["s"]); !ok || f != cnt[k] {
+				a.fail("C14|cap|when-failing-rows-disturb-live-partitions", fmt.Sprintf("%s with cap 2: row %d (k=%s, passes WHEN) gives %s, reference s=%v; rows %s", sqlCapWhen, i+1, k, js(res[i].Row), cnt[k], js(rows)), map[string]any{"sql": sqlCapWhen, "rows": rows}, cnt[k], res[i].Row)
+				return
+			}
+		}
+	})
+	a.sample(map[string]any{"when_sql": sqlWhen, "cap_sql": sqlCap, "cap_when_sql": sqlCapWhen, "cap": 2})
 	return a.result()
 }
 
